@@ -48,6 +48,8 @@ template <class T> bool run_extreme (bool thorough)
     vf::R ().add ("extreme_cases_outside_domain(t underflows)", total.excluded);
     vf::R ().cls ("extreme.t-underflows-on-non-binding-axis(judged)", total.nbu);
     vf::R ().cls ("extreme.t-underflows.exact-hit(one-sided truth check)", total.uhit);
+    vf::R ().cls ("extreme.t-underflows.exact-hit.reported-points-judged", total.upts);
+    vf::R ().cls ("extreme.t-underflows.first-contact-parameter-rounds-to-zero(origin outside)", total.uzero);
     vf::R ().cls ("extreme.some-t-exceeds-max(overflow guard regime)", total.overflow);
     vf::R ().cls ("extreme.every-t-exceeds-max", total.alloverflow);
     vf::R ().cls ("extreme.overflow-regime.judged-against-documented-fallback", total.fb_judged);
